@@ -1,5 +1,6 @@
 (* C12 — every stored value is normalised to one of seven kinds, consistently reported. *)
 From Anytype Require Import Base FloatBits Value Native NativeProofs Heap ObjectProofs.
+From AnytypeGen Require Import GenParseVal.
 Local Open Scope Z_scope.
 
 (* [gov]: the Go dynamic values that can reach the library (one constructor per supported type, [GOther] for any other);
@@ -43,6 +44,11 @@ Proof. exact new_from_flavours. Qed.
 Theorem C12_typed_getters : forall kd r, typed kd r = Pan <-> (r = Panic \/ exists v, r = Ok v /\ hkind v <> kd).
 Proof. exact typed_panic_iff. Qed.
 
+(* obligation on the CURRENT source: the case table of parseVal's type switch, extracted from /repo on every run, is the one the
+   model [norm] transcribes (same set of (type, action) pairs) *)
+Theorem C12_switch_table : tables_equiv gen_parseval_cases parseval_cases_modelled = true.
+Proof. vm_compute. reflexivity. Qed.
+
 Example C12_nonvacuous :
   norm (GSliceAny [GIntW WUint8 200; GF32 1036831949; GMapStr [(B"k", B"v")]; GNil]) =
     Ok (VList [VInt 200; VFloat 4591870180174331904; VObj [(B"k", VStr (B"v"))]; VNil]) /\
@@ -63,3 +69,4 @@ Print Assumptions C12_reject_nested_slice.
 Print Assumptions C12_reject_nested_map.
 Print Assumptions C12_new_list_from.
 Print Assumptions C12_typed_getters.
+Print Assumptions C12_switch_table.
